@@ -166,13 +166,14 @@ pub fn entry_act(match_w: u32) -> impl Strategy<Value = EntryAct> {
 pub fn nav_step() -> impl Strategy<Value = Nav> {
     prop_oneof![
         3 => pref().prop_map(Nav::At),
+        3 => (pref(), any::<u8>()).prop_map(|(p, k)| Nav::AtCut(p, k)),
         3 => pref().prop_map(Nav::Find),
         1 => pref().prop_map(Nav::FindExact),
         1 => pref().prop_map(Nav::FindLpm),
         2 => Just(Nav::Left),
         2 => Just(Nav::Right),
-        1 => Just(Nav::SplitLeft),
-        1 => Just(Nav::SplitRight),
+        2 => Just(Nav::SplitLeft),
+        2 => Just(Nav::SplitRight),
     ]
 }
 
